@@ -63,7 +63,7 @@ func c19(w *core.World, r *core.Report) {
 	ruleDirectErrorEscalates(w, r)
 	r.Rule("R19.17", "the pipelined receiver closes the replay with the escalated error", 1)
 	ruleEscalatedErrorClosesReplay(w, r)
-	r.Rule("R19.20", "on a cluster target the checkpoint never shares a batch with the commands it covers: it is sent alone, after an attempt without it succeeded (synchronous sender)", 2)
+	r.Rule("R19.21", "on a cluster target the checkpoint never shares a batch with the commands it covers: it is sent alone, after an attempt without it succeeded (synchronous sender)", 2)
 	ruleCheckpointAloneOnCluster(w, r)
 	r.Rule("R19.19", "plain cluster batches: the route of a command follows the unsettled commands of its slot (known finding W32)", 2)
 	ruleRouteFollowsUnsettledSlot(w, r)
